@@ -7,6 +7,7 @@ the code under test and returns an `Outcome`.
 """
 from __future__ import annotations
 
+import glob
 import hashlib
 import importlib
 import json
@@ -122,6 +123,19 @@ class Check:
     budget_s = {"quick": 60, "thorough": 1200}
     shards = None  # override shard count (e.g. memory-heavy checks)
     rlimit_as = 3 << 30
+    sandbox_timeout = None  # seconds; None = execute in the shard process itself
+
+    def on_abnormal(self, case, res, env):
+        """child hung (confirmed by a 3x re-run) or died: default = violation with the stack frame as signature"""
+        out = Outcome()
+        out.nontrivial = True
+        if res[0] == "hang":
+            out.violate({"kind": "hang", "frame": res[1]}, observed={"stack_tail": res[2][-1200:], "after_s": round(res[3], 1)},
+                        expected="call returns or raises within the time bound")
+        else:
+            out.violate({"kind": "interpreter-died", "exit": res[1]}, observed={"dump": (res[2] or "")[-1200:]},
+                        expected="interpreter survives")
+        return out
 
     def setup(self, env):
         pass
@@ -202,6 +216,51 @@ class ShardResult:
                     f.update(case=case, observed=v["observed"], expected=v["expected"], size=sz)
 
 
+class Executor:
+    """runs check.execute either in-process or in a watchdog child"""
+
+    def __init__(self, check, env, confirm=True, timeout=None):
+        self.check = check
+        self.env = env
+        self.sb = None
+        self.sb3 = None
+        self.hang_unconfirmed = 0
+        self.confirm = confirm
+        if check.sandbox_timeout:
+            from vlib.sandbox import Sandbox
+
+            self.Sandbox = Sandbox
+            self.timeout = timeout or check.sandbox_timeout
+            self.sb = Sandbox(check, env, self.timeout)
+
+    def run(self, case) -> Outcome:
+        if self.sb is None:
+            return self.check.execute(case, self.env)
+        res = self.sb.execute(case)
+        if res[0] == "ok":
+            return res[1]
+        if res[0] == "exc":
+            raise HarnessError("exception escaped execute() in sandbox child:\n" + res[2])
+        if res[0] == "hang" and self.confirm:
+            # confirmation re-run alone with 3x the limit
+            if self.sb3 is None:
+                self.sb3 = self.Sandbox(self.check, self.env, self.timeout * 3)
+            res2 = self.sb3.execute(case)
+            if res2[0] == "ok":
+                self.hang_unconfirmed += 1
+                res2[1].inconclusive = "watchdog-expiry-not-reproduced"
+                return res2[1]
+            if res2[0] == "exc":
+                raise HarnessError("exception escaped execute() in sandbox child:\n" + res2[2])
+            res = res2
+        return self.check.on_abnormal(case, res, self.env)
+
+    def close(self):
+        for sb in (self.sb, self.sb3):
+            if sb is not None:
+                sb.close()
+
+
 def _limit_memory(nbytes):
     try:
         resource.setrlimit(resource.RLIMIT_AS, (nbytes, nbytes))
@@ -220,17 +279,23 @@ def _shard_entry(modname, env: Env, conn, budget):
         os.chdir(env.scratch)
         env.deadline = t0 + budget
         check.setup(env)
+        ex = Executor(check, env)
 
         def handle(case, out=None):
             if time.time() > env.deadline:
                 res.budget_skipped += 1
                 return None
             if out is None:
-                out = check.execute(case, env)
+                out = ex.run(case)
             res.record(case, out)
             return out
 
         try:
+            if env.shard == 0:
+                for rp in sorted(glob.glob(os.path.join(VERIF, "regress", env.prop, "*.json"))):
+                    with open(rp) as fh:
+                        handle(json.load(fh)["case"])
+                    res.extra["replayed"] = res.extra.get("replayed", 0) + 1
             for case in check.enumerated(env):
                 handle(case)
                 if time.time() > env.deadline:
@@ -253,6 +318,7 @@ def _shard_entry(modname, env: Env, conn, budget):
                 prop()
             check.stateful(env, handle)
         finally:
+            ex.close()
             check.teardown(env)
     except BaseException:
         res.error = traceback.format_exc()
@@ -516,6 +582,7 @@ def main(prop, tier, replay, nshards, scale):
             "budget_skipped": merged.budget_skipped,
             "counters": dict(sorted(merged.extra.items())),
             "shards": nshards,
+            "shard_wall_s": [round(r.wall, 1) for r in results],
             "technique": check.technique,
         }
         if check.exhaustive(env0) and merged.budget_skipped == 0:
@@ -569,12 +636,13 @@ def triage(check, prop, tier, seed, merged, known, env):
         else:
             new.append(f)
     min_budget = (20 if tier == "quick" else 120)
+    ex = Executor(check, env, confirm=False, timeout=min(check.sandbox_timeout or 10, 10 if tier == "quick" else 30))
     for f in new[:6]:
         sigkey = canon(f["signature"])
 
         def still_fails(c):
             try:
-                out = check.execute(c, env)
+                out = ex.run(c)
             except BaseException:
                 return False
             return any(canon(v["signature"]) == sigkey for v in out.violations)
@@ -584,7 +652,7 @@ def triage(check, prop, tier, seed, merged, known, env):
             env.replaying = True
             if still_fails(case):
                 case = minimise(case, still_fails, min_budget / max(1, len(new[:6])))
-                out = check.execute(case, env)
+                out = ex.run(case)
                 for v in out.violations:
                     if canon(v["signature"]) == sigkey:
                         f["observed"], f["expected"] = v["observed"], v["expected"]
@@ -606,8 +674,10 @@ def triage(check, prop, tier, seed, merged, known, env):
         print("  expected=%s" % (canon(f["expected"])[:600]))
         report["new"] += 1
         rc = 1
+    ex.close()
     if len(new) > 6:
-        print("  (+%d further new signatures not minimised)" % (len(new) - 6))
+        for f in new[6:]:
+            print("  further new signature (not minimised): %s count=%d" % (canon(f["signature"])[:300], f["count"]))
         report["new"] = len(new)
     return rc, report
 
@@ -621,9 +691,11 @@ def do_replay(check, prop, tier, seed, replay, base, known):
     env.replaying = True
     env.deadline = time.time() + 3600
     check.setup(env)
+    ex = Executor(check, env)
     try:
-        out = check.execute(rp["case"], env)
+        out = ex.run(rp["case"])
     finally:
+        ex.close()
         check.teardown(env)
     rc = 0
     for v in out.violations:
